@@ -465,3 +465,299 @@ Proof.
     reflexivity.
   - rewrite decode_header by (try assumption; lia). reflexivity.
 Qed.
+
+(* ------------------------------------------------------------------ refutations (the code as it is) *)
+Definition spec_str (n : N) : spec := Sp n FStr 8 TIndex 0.
+Definition inp1 (rdi : N) (ss : list (N * list N)) : inputs :=
+  {| regs := [rdi; 0; 0; 0; 0; 0]; xmm := []; stk := []; rets := [0; 0]; strs := ss; wrds := [] |}.
+Definition s98 : list N := repeat 65 98.
+
+(* a string of exactly ARG_STR_MAX characters fits, yet it is recorded (and shown) as 95 characters + "..." *)
+Lemma len98_refuted :
+  let st := run 0 (inp1 4096 [(4096, s98)]) false [spec_str 1] in
+  payload st = Some (le_bytes 2 98 ++ repeat 65 95 ++ [46; 46; 46]) /\
+  ok_args [(spec_str 1, AStr s98)] (show_args [] [spec_str 1] (payload st)) = false.
+Proof. vm_compute. split; reflexivity. Qed.
+
+(* one character less and it is intact *)
+Lemma len97_ok :
+  let st := run 0 (inp1 4096 [(4096, repeat 65 97)]) false [spec_str 1] in
+  ok_args [(spec_str 1, AStr (repeat 65 97))] (show_args [] [spec_str 1] (payload st)) = true.
+Proof. vm_compute. reflexivity. Qed.
+
+(* `arg1/c64,arg2/i32`: the writer advances 8 bytes for the char, get_argspec_string 4: arg2 is shown
+   from the upper half of arg1 *)
+Lemma c64_refuted :
+  let specs := [Sp 1 FChar 8 TIndex 0; Sp 2 FSint 4 TIndex 0] in
+  let inp := {| regs := [0x1122334455667741; 7; 0; 0; 0; 0]; xmm := []; stk := []; rets := []; strs := []; wrds := [] |} in
+  let st := run 0 inp false specs in
+  show_args [] specs (payload st) = [40; 39; 65; 39; 44; 32] ++ dec 0x11223344 ++ [41] /\
+  ok_args [(Sp 1 FChar 8 TIndex 0, AInt 0x1122334455667741); (Sp 2 FSint 4 TIndex 0, AInt 7)]
+          (show_args [] specs (payload st)) = false.
+Proof. vm_compute. split; reflexivity. Qed.
+
+(* the string "\xff\xff\xff\xff" is shown as NULL (the readers' NULL marker; the writer stores "NULL" for NULL) *)
+Lemma ffff_refuted :
+  let st := run 0 (inp1 4096 [(4096, [255; 255; 255; 255])]) false [spec_str 1] in
+  show_args [] [spec_str 1] (payload st) = [40] ++ null_str ++ [41].
+Proof. vm_compute. reflexivity. Qed.
+
+(* stores past the frame's argument buffer *)
+(* (a) on the success path: 1016 bytes of struct, then "ab": total 1020 is accepted, the NUL goes to argbuf[1024] *)
+Lemma overflow_success_refuted :
+  let specs := [ {| s_idx := 30; s_fmt := FStruct; s_size := 1016; s_type := TStack; s_u := 1%Z; s_regs := []; s_name := [] |};
+                 spec_str 1 ] in
+  let st := run 0 (inp1 4096 [(4096, [97; 98])]) false specs in
+  result st = Some 1020 /\ m_hi st = ARGBUF_SIZE + 1.
+Proof. vm_compute. split; reflexivity. Qed.
+
+(* (b) on the failure path a string writes two bytes past the end *)
+Lemma overflow_fail_refuted :
+  let specs := [ {| s_idx := 30; s_fmt := FStruct; s_size := 1016; s_type := TStack; s_u := 1%Z; s_regs := []; s_name := [] |};
+                 spec_str 1 ] in
+  let st := run 0 (inp1 4096 [(4096, [97; 98; 99; 100; 101])]) false specs in
+  result st = None /\ m_hi st = ARGBUF_SIZE + 2.
+Proof. vm_compute. split; reflexivity. Qed.
+
+(* (c) scalars are copied before the limit is looked at: n eight-byte arguments store 8n bytes *)
+Definition many_specs (n : nat) : list spec := map (fun i => Sp (N.of_nat i) FAuto 8 TIndex 0) (seq 1 n).
+Lemma overflow_scalars_refuted :
+  let st := run 0 (inp1 0 []) false (many_specs 100 ++ map (fun i => Sp 1 FHex 8 TStack (N.of_nat i)) (seq 1 40)) in
+  result st = None /\ m_hi st = ARGBUF_SIZE + 100.
+Proof. vm_compute. split; reflexivity. Qed.
+
+(* argument numbers 101..108 alias the xmm register numbers in mcount_get_register_arg *)
+Lemma arg101_reads_xmm0_refuted :
+  let inp := {| regs := [0; 0; 0; 0; 0; 0]; xmm := [0xdeadbeef]; stk := repeat 7 120; rets := []; strs := []; wrds := [] |} in
+  takeN 8 (get_arg inp (Sp 101 FAuto 8 TIndex 0) val0) = le_bytes 8 0xdeadbeef /\
+  takeN 8 (get_arg inp (Sp 100 FAuto 8 TIndex 0) val0) = le_bytes 8 7.
+Proof. vm_compute. split; reflexivity. Qed.
+
+(* a struct passed on the stack whose size is not a multiple of 4 loses its last bytes (mcount_memcpy4) *)
+Lemma struct18_tail_lost_refuted :
+  let sp := {| s_idx := 1; s_fmt := FStruct; s_size := 18; s_type := TStack; s_u := 1%Z; s_regs := []; s_name := [] |} in
+  let inp := {| regs := []; xmm := []; stk := [0x0807060504030201; 0x100f0e0d0c0b0a09; 0x1817161514131211]; rets := []; strs := []; wrds := [] |} in
+  payload (run 0xA5 inp false [sp]) =
+  Some [1; 2; 3; 4; 5; 6; 7; 8; 9; 10; 11; 12; 13; 14; 15; 16; 0xA5; 0xA5; 0xA5; 0xA5].
+Proof. vm_compute. reflexivity. Qed.
+
+(* ------------------------------------------------------------------ how far the stores go *)
+Lemma length_dots : forall i dst, lenN dst = i + 1 -> 3 <= i -> lenN (dots i dst) = i + 1.
+Proof.
+  intros i dst H H3. unfold dots. rewrite lenN_app. unfold takeN, lenN in *.
+  rewrite firstn_length. simpl length. lia.
+Qed.
+
+Lemma copy_loop_dstlen : forall src i bound dst len,
+  lenN dst = i -> len = i -> lenN (fst (copy_loop src i bound dst len)) <= snd (copy_loop src i bound dst len) + 1.
+Proof.
+  induction src as [|c rest IH]; intros i bound dst len Hd Hl.
+  - cbn [copy_loop]. destruct (bound <=? i); simpl; lia.
+  - cbn [copy_loop]. destruct (bound <=? i) eqn:E1; [simpl; lia|].
+    assert (H1 : lenN (dst ++ [c]) = i + 1) by (rewrite lenN_app; unfold lenN at 2; simpl; lia).
+    destruct (i =? ARG_STR_MAX) eqn:E2.
+    + assert (H2 : lenN (dots i (dst ++ [c])) = i + 1).
+      { apply length_dots; [exact H1|]. unfold ARG_STR_MAX in E2. lia. }
+      destruct (nthN (dots i (dst ++ [c])) i =? 0); [simpl; lia|].
+      apply IH; lia.
+    + destruct (nthN (dst ++ [c]) i =? 0); [simpl; lia|].
+      apply IH; lia.
+Qed.
+
+Definition no_struct (s : spec) : Prop := fmt_eqb (s_fmt s) FStruct = false.
+Definition val_ok (st : mst) : Prop := lenN (m_val st) = VAL_SIZE.
+Definition hi_inv (st : mst) : Prop := m_hi st <= 4 + m_total st + 1.
+
+Lemma length_over : forall l old, (length l <= length old)%nat -> length (over l old) = length old.
+Proof. intros. unfold over. rewrite app_length, skipn_length. lia. Qed.
+
+Lemma lenN_set_lo : forall b v, lenN b <= lenN v -> lenN (set_lo b v) = lenN v.
+Proof. intros b v H. unfold set_lo, lenN in *. rewrite length_over; lia. Qed.
+
+Lemma lenN_le_bytes : forall n v, lenN (le_bytes n v) = N.of_nat n.
+Proof. intros. unfold lenN. rewrite length_le_bytes. reflexivity. Qed.
+
+Lemma get_register_arg_len : forall inp ty idx u size val,
+  lenN val = VAL_SIZE -> lenN (snd (get_register_arg inp ty idx u size val)) = VAL_SIZE.
+Proof.
+  intros inp ty idx u size val H. unfold get_register_arg.
+  assert (G : forall r, lenN (snd (let val1 := set_lo (le_bytes 8 0) val in
+     if ((1 <=? r) && (r <=? 6))%Z then (true, set_lo (le_bytes 8 (nthN (regs inp) (Z.to_N (r - 1)))) val1)
+     else if ((101 <=? r) && (r <=? 108))%Z then
+       (true, if size =? 8 then set_lo (le_bytes 8 (nthN (xmm inp) (Z.to_N (r - 101)))) val1
+              else set_lo (le_bytes 4 (nthN (xmm inp) (Z.to_N (r - 101)))) val1)
+     else (false, val1))) = VAL_SIZE).
+  { intro r. cbv zeta.
+    assert (H1 : lenN (set_lo (le_bytes 8 0) val) = VAL_SIZE).
+    { rewrite lenN_set_lo; [exact H|]. rewrite lenN_le_bytes, H. unfold VAL_SIZE. lia. }
+    destruct ((1 <=? r) && (r <=? 6))%Z; cbn [snd].
+    - rewrite lenN_set_lo; [exact H1|]. rewrite lenN_le_bytes, H1. unfold VAL_SIZE. lia.
+    - destruct ((101 <=? r) && (r <=? 108))%Z; cbn [snd]; [|exact H1].
+      destruct (size =? 8); (rewrite lenN_set_lo; [exact H1|]); rewrite lenN_le_bytes, H1; unfold VAL_SIZE; lia. }
+  destruct ty; try apply G. exact H.
+Qed.
+
+Lemma get_arg_len : forall inp s val,
+  lenN val = VAL_SIZE -> s_size s <= 12 -> lenN (get_arg inp s val) = VAL_SIZE.
+Proof.
+  intros inp s val H Hs. unfold get_arg.
+  pose proof (get_register_arg_len inp (s_type s) (s_idx s) (s_u s) (s_size s) val H) as H1.
+  destruct (get_register_arg inp (s_type s) (s_idx s) (s_u s) (s_size s) val) as [ok val1].
+  cbn [snd] in H1. destruct ok; [exact H1|].
+  unfold get_stack_arg.
+  match goal with |- context [if ?c then _ else _] => destruct c end; [reflexivity|].
+  rewrite lenN_set_lo; [exact H1|].
+  unfold stack_bytes. rewrite length_fit, H1. unfold VAL_SIZE, ALIGN. lia.
+Qed.
+
+Lemma emit_hi : forall fill st val w adv,
+  hi_inv st -> lenN w <= adv + 1 -> hi_inv (emit fill st val w adv).
+Proof.
+  intros fill st val w adv H Hw. unfold hi_inv in *. unfold emit. cbn [m_hi m_total].
+  destruct w; lia.
+Qed.
+
+Lemma step_hi : forall fill inp is_ret st s, no_struct s -> hi_inv st -> hi_inv (step fill inp is_ret st s).
+Proof.
+  intros fill inp is_ret st s Hns H. unfold step. unfold no_struct in Hns. rewrite Hns. cbn [andb].
+  destruct (m_stop st); [exact H|].
+  destruct (negb (Bool.eqb is_ret (s_idx s =? 0))); [exact H|].
+  match goal with |- context [match ?f with Some _ => _ | None => _ end] => destruct f as [[sw val]|] end;
+    [|exact H].
+  destruct (is_strfmt (s_fmt s)).
+  - match goal with |- context [if ?p =? 0 then _ else _] => destruct (p =? 0) end.
+    + apply emit_hi; [exact H|]. vm_compute. discriminate.
+    + match goal with |- context [copy_loop ?a ?b ?c ?d ?e] =>
+        pose proof (copy_loop_dstlen a b c d e eq_refl eq_refl) as Hl;
+        destruct (copy_loop a b c d e) as [dst len] end.
+      cbn [fst snd] in Hl.
+      apply emit_hi; [exact H|].
+      rewrite lenN_app, lenN_le_bytes. pose proof (ALIGN4_ge (len + 2)). lia.
+  - apply emit_hi; [exact H|].
+    unfold takeN, lenN. rewrite firstn_length. lia.
+Qed.
+
+(* Without struct specs no store goes further than one byte past the data accepted so far:
+   hi <= 4 + total_size + 1, whether or not the limit is respected. *)
+Theorem store_extent : forall fill inp is_ret specs,
+  Forall no_struct specs -> hi_inv (run fill inp is_ret specs).
+Proof.
+  intros fill inp is_ret specs Hns. unfold run.
+  assert (H0 : hi_inv mst0) by (unfold hi_inv; simpl; lia).
+  revert H0. generalize mst0.
+  induction Hns as [|s r Hs Hr IH]; intros st H; simpl; [exact H|].
+  apply IH. apply step_hi; assumption.
+Qed.
+
+(* ... so when save_to_argbuf accepts the data, at most ONE byte (a string's NUL) is stored past the
+   1024-byte buffer (overflow_success_refuted shows that this byte really is stored). *)
+Corollary store_bound_success : forall fill inp is_ret specs n,
+  Forall no_struct specs -> result (run fill inp is_ret specs) = Some n ->
+  m_hi (run fill inp is_ret specs) <= ARGBUF_SIZE + 1.
+Proof.
+  intros fill inp is_ret specs n Hns Hr.
+  pose proof (store_extent fill inp is_ret specs Hns) as H. unfold hi_inv in H.
+  unfold result in Hr. destruct (MAX_SIZE <? m_total (run fill inp is_ret specs)) eqn:E; [discriminate|].
+  unfold MAX_SIZE, ARGBUF_SIZE in *. lia.
+Qed.
+
+(* ------------------------------------------------------------------ fetch: which word is captured *)
+(* the SysV x86_64 location of the 64-bit word a spec names: integer argument n is in
+   rdi, rsi, rdx, rcx, r8, r9 for n = 1..6 and in the n-6th stack word behind the return address
+   for n >= 7; %reg and %stack+k name the word directly *)
+Definition arg_word (inp : inputs) (s : spec) : option N :=
+  match s_type s with
+  | TIndex => if (1 <=? s_idx s) && (s_idx s <=? 6) then Some (nthN (regs inp) (s_idx s - 1))
+              else if (7 <=? s_idx s) && (s_idx s <=? 100) then Some (nthN (stk inp) (s_idx s - 7))
+              else None
+  | TReg => if ((1 <=? s_u s) && (s_u s <=? 6))%Z then Some (nthN (regs inp) (Z.to_N (s_u s - 1))) else None
+  | TStack => if ((1 <=? s_u s) && (s_u s <=? 100))%Z then Some (nthN (stk inp) (Z.to_N (s_u s - 1))) else None
+  | TFloat => None
+  end.
+
+Lemma takeN_over_exact : forall l old, takeN (lenN l) (over l old) = l.
+Proof. intros. unfold over. apply takeN_app_exact. reflexivity. Qed.
+
+Lemma takeN_takeN : forall {A} n m (l : list A), n <= m -> takeN n (takeN m l) = takeN n l.
+Proof.
+  intros A n m l H. unfold takeN. rewrite firstn_firstn. f_equal. lia.
+Qed.
+
+Lemma takeN_app_le : forall {A} n (a b : list A), n <= lenN a -> takeN n (a ++ b) = takeN n a.
+Proof.
+  intros A n a b H. unfold takeN, lenN in *. rewrite firstn_app.
+  replace (N.to_nat n - length a)%nat with 0%nat by lia. simpl. apply app_nil_r.
+Qed.
+
+Lemma takeN_set_lo : forall n b v, n <= lenN b -> takeN n (set_lo b v) = takeN n b.
+Proof. intros. unfold set_lo, over. apply takeN_app_le. assumption. Qed.
+
+(* the first n <= 8 bytes at stack word k+1 *)
+Lemma stack_bytes_word : forall inp k n, n <= 8 ->
+  stack_bytes inp (k + 1) n = takeN n (le_bytes 8 (nthN (stk inp) k)).
+Proof.
+  intros inp k n Hn. unfold stack_bytes. replace (k + 1 - 1) with k by lia.
+  unfold nthN, dropN.
+  remember (N.to_nat k) as j. clear Heqj k.
+  generalize (stk inp). intro l. revert j.
+  induction l as [|x l IH]; intros j.
+  - rewrite skipn_nil. simpl flat_map. destruct j; simpl nth.
+    + unfold fit. simpl app. unfold repN, takeN.
+      assert (Hc : (N.to_nat n <= 8)%nat) by lia.
+      destruct (N.to_nat n) as [|[|[|[|[|[|[|[|[|?]]]]]]]]]; try lia; reflexivity.
+    + unfold fit. simpl app. unfold repN, takeN.
+      assert (Hc : (N.to_nat n <= 8)%nat) by lia.
+      destruct (N.to_nat n) as [|[|[|[|[|[|[|[|[|?]]]]]]]]]; try lia; reflexivity.
+  - destruct j.
+    + simpl skipn. simpl nth. cbn [flat_map]. unfold fit.
+      rewrite <- app_assoc. apply takeN_app_le. rewrite lenN_le_bytes. lia.
+    + simpl skipn. simpl nth. apply IH.
+Qed.
+
+(* C09 fetch: for integer-class specs (size 1, 2, 4 or 8) the bytes save_to_argbuf stores are the low bytes
+   of the word the ABI assigns (arg_word); whatever ctx->val held before does not matter *)
+Theorem fetch_word : forall inp s val w,
+  arg_word inp s = Some w -> lenN val = VAL_SIZE ->
+  s_size s = 1 \/ s_size s = 2 \/ s_size s = 4 \/ s_size s = 8 ->
+  takeN (ALIGN (s_size s) 4) (get_arg inp s val) = takeN (ALIGN (s_size s) 4) (le_bytes 8 w).
+Proof.
+  intros inp s val w Hw Hval Hsz.
+  assert (HA : ALIGN (s_size s) 4 <= 8) by (unfold ALIGN; lia).
+  assert (HA1 : 1 <= ALIGN (s_size s) 4) by (unfold ALIGN; lia).
+  unfold arg_word in Hw. unfold get_arg, get_register_arg, get_stack_arg.
+  destruct (s_type s) eqn:Et.
+  - (* TIndex *)
+    destruct ((1 <=? s_idx s) && (s_idx s <=? 6)) eqn:E1.
+    + injection Hw as <-.
+      assert (Hz : ((1 <=? Z.of_N (s_idx s)) && (Z.of_N (s_idx s) <=? 6))%Z = true) by lia.
+      rewrite Hz. replace (Z.to_N (Z.of_N (s_idx s) - 1)) with (s_idx s - 1) by lia.
+      apply takeN_set_lo. rewrite lenN_le_bytes. lia.
+    + destruct ((7 <=? s_idx s) && (s_idx s <=? 100)) eqn:E2; [|discriminate].
+      injection Hw as <-.
+      assert (Hz : ((1 <=? Z.of_N (s_idx s)) && (Z.of_N (s_idx s) <=? 6))%Z = false) by lia.
+      assert (Hz2 : ((101 <=? Z.of_N (s_idx s)) && (Z.of_N (s_idx s) <=? 108))%Z = false) by lia.
+      rewrite Hz, Hz2.
+      assert (Ho : ((Z.of_N (s_idx s) - MAX_REG_ARGS <? 1) || (100 <? Z.of_N (s_idx s) - MAX_REG_ARGS))%Z = false)
+        by (unfold MAX_REG_ARGS; lia).
+      rewrite Ho.
+      replace (Z.to_N (Z.of_N (s_idx s) - MAX_REG_ARGS)) with (s_idx s - 7 + 1) by (unfold MAX_REG_ARGS; lia).
+      rewrite stack_bytes_word by exact HA.
+      rewrite takeN_set_lo.
+      * apply takeN_takeN. lia.
+      * unfold takeN, lenN. rewrite firstn_length, length_le_bytes. lia.
+  - discriminate.
+  - (* TReg *)
+    destruct ((1 <=? s_u s) && (s_u s <=? 6))%Z eqn:E1; [|discriminate].
+    injection Hw as <-.
+    apply takeN_set_lo. rewrite lenN_le_bytes. lia.
+  - (* TStack *)
+    destruct ((1 <=? s_u s) && (s_u s <=? 100))%Z eqn:E1; [|discriminate].
+    injection Hw as <-.
+    assert (Ho : ((s_u s <? 1) || (100 <? s_u s))%Z = false) by lia.
+    rewrite Ho.
+    replace (Z.to_N (s_u s)) with (Z.to_N (s_u s - 1) + 1) by lia.
+    rewrite stack_bytes_word by exact HA.
+    rewrite takeN_set_lo.
+    + apply takeN_takeN. lia.
+    + unfold takeN, lenN. rewrite firstn_length, length_le_bytes. lia.
+Qed.
